@@ -28,6 +28,25 @@ import (
 
 const accName = "rewards"
 
+// Neighbours: other accumulators kept in the SAME store, as the keepers do (one store holds the accumulators of all
+// pools).  Their names and position names are chosen so that accumulator name + position name read the same for
+// different (accumulator, position) pairs ("rewards"+"p1" = "rewardsp"+"1" = "reward"+"sp1"): whatever is done to a
+// neighbour, the accumulator under test must not move (trace event "nbr": a step that changes nothing).
+// (Names with a '|' next to the separator are left out: "a|" + "||" + "b" and "a" + "||" + "|b" are the same key in the
+// current code - only "||" inside a name is refused -; no keeper uses such names and the statement is about one
+// accumulator, so this is noted in DESIGN.md and not judged.)
+var nbrNames = []string{"rewardsp", "reward", "rewards1", "zzz"}
+
+func nbrPos(nbr string, i int) string {
+	switch nbr {
+	case "rewardsp":
+		return fmt.Sprintf("%d", i)
+	case "reward":
+		return fmt.Sprintf("sp%d", i)
+	}
+	return fmt.Sprintf("p%d", i)
+}
+
 var (
 	allDenoms = []string{"uaa", "ubb", "ucc"} // sorted
 	e18       = new(big.Int).Exp(big.NewInt(10), big.NewInt(18), nil)
@@ -47,6 +66,7 @@ type world struct {
 	// re-read the total from the store.
 	h   [2]*accumpkg.AccumulatorObject
 	rng *rand.Rand
+	nbr bool // neighbours exist in the store
 }
 
 func newWorld(nd int, mode string, rng *rand.Rand) *world {
@@ -131,6 +151,57 @@ type state struct {
 	Extra int        // anything in the store that is not the accumulator or one of its positions
 }
 
+// a key that belongs to a neighbour and cannot be read as a key of the accumulator under test
+func (w *world) isNbrKey(k []byte) bool {
+	if bytes.HasPrefix(k, accumpkg.FormatPositionPrefixKey(accName, "")) {
+		return false
+	}
+	for _, n := range nbrNames {
+		if bytes.Equal(k, []byte("accum||acc||"+n)) || bytes.HasPrefix(k, accumpkg.FormatPositionPrefixKey(n, "")) {
+			return true
+		}
+	}
+	return false
+}
+
+// nbrOp does something to a neighbour accumulator (errors are fine: nothing is demanded of the neighbour here)
+func (w *world) nbrOp() string {
+	n := nbrNames[w.rng.Intn(len(nbrNames))]
+	a, err := accumpkg.GetAccumulator(w.store, n)
+	if err != nil {
+		panic(err)
+	}
+	pn := nbrPos(n, 1+w.rng.Intn(6))
+	sh := osmomath.NewDec(int64(1 + w.rng.Intn(1000)))
+	what := []string{"new", "new", "add", "rem", "grow", "claim", "delete", "addunc", "set"}[w.rng.Intn(9)]
+	func() {
+		defer func() { _ = recover() }()
+		g := sdk.NewDecCoins()
+		for _, d := range w.denoms {
+			g = g.Add(sdk.NewDecCoin(d, osmomath.NewInt(int64(1+w.rng.Intn(50)))))
+		}
+		switch what {
+		case "new":
+			_ = a.NewPosition(pn, sh, nil)
+		case "add":
+			_ = a.AddToPosition(pn, sh)
+		case "rem":
+			_ = a.RemoveFromPosition(pn, osmomath.NewDec(1))
+		case "grow":
+			a.AddToAccumulator(g)
+		case "claim":
+			_, _, _ = a.ClaimRewards(pn)
+		case "delete":
+			_, _ = a.DeletePosition(pn)
+		case "addunc":
+			_ = a.AddToUnclaimedRewards(pn, g)
+		case "set":
+			_ = a.SetPositionIntervalAccumulation(pn, a.GetValue())
+		}
+	}()
+	return n + "/" + what + "/" + pn
+}
+
 // project reads the abstract state back from the store (never from a handle).
 func (w *world) project() state {
 	st := state{Pos: []posState{}}
@@ -145,6 +216,7 @@ func (w *world) project() state {
 		k := it.Key()
 		switch {
 		case bytes.Equal(k, accKey):
+		case w.nbr && w.isNbrKey(k):
 		case bytes.HasPrefix(k, prefix):
 			var rec accumpkg.Record
 			if err := proto.Unmarshal(it.Value(), &rec); err != nil || rec.NumShares.IsNil() {
@@ -478,6 +550,12 @@ func (r *recorder) safeStep() (alive bool) {
 }
 
 func (r *recorder) step() {
+	if r.w.nbr && r.rng.Intn(4) == 0 {
+		what := r.w.nbrOp()
+		r.tw.Emit(map[string]any{"e": "op", "op": "nbr", "n": what, "panic": false, "ok": true, "st": encState(r.w.project())})
+		r.counts["nbr"]++
+		return
+	}
 	st := r.w.project()
 	ex, fr := r.existing(st), r.free(st)
 	nd := len(r.w.denoms)
@@ -706,13 +784,22 @@ func TestRecord(t *testing.T) {
 		nd := 1 + rng.Intn(3)
 		mode, api, val := modes[h%3], apis[(h/3)%3], values[rng.Intn(len(values))]
 		w := newWorld(nd, mode, rng)
+		if h%2 == 1 { // every second history shares its store with neighbours
+			for _, n := range nbrNames {
+				if err := accumpkg.MakeAccumulator(w.store, n); err != nil {
+					t.Fatal(err)
+				}
+			}
+			w.nbr = true
+			counts["history:neighbours"]++
+		}
 		nn := 2 + rng.Intn(5)
 		names := []string{}
 		for i := 0; i < nn; i++ {
 			names = append(names, fmt.Sprintf("p%d", i+1))
 		}
 		r := &recorder{w: w, rng: rng, tw: tw, names: names, values: val, api: api, out: map[string][]*big.Int{}, counts: counts}
-		tw.Emit(map[string]any{"e": "cfg", "nd": nd, "mode": mode, "api": api, "values": val, "names": names,
+		tw.Emit(map[string]any{"e": "cfg", "nd": nd, "mode": mode, "api": api, "values": val, "names": names, "nbr": w.nbr,
 			"st": encState(w.project())})
 		counts["mode:"+mode]++
 		counts["api:"+api]++
